@@ -580,6 +580,7 @@ pub fn c17(tier: Tier, _seed: u64) -> Prop {
             }
             json!({"states": trans.max(1), "transitions": trans.max(1), "traces_validated_against_impl": trans})
         }),
+        profiles: vec!["release"],
     }
 }
 
